@@ -383,7 +383,7 @@ func c20Phase(p *Prog, r *Report) {
 // keeps exactly the lines of the requested id: the id test must require the
 // id at the start of the line AND a separator as the very next character.
 func c20SeriesId(p *Prog, r *Report) {
-	r.Rule("C20.R6", "series selection: the time-series reader keeps a line only when the id filter accepts it, and the filter requires the requested id as line prefix followed immediately by a separator character (an id that merely starts with the requested id must not match)", 2)
+	r.Rule("C20.R6", "series selection: the time-series reader keeps a line only when the id filter accepts it, and the filter requires the requested id as line prefix followed immediately by a separator character (an id that merely starts with the requested id must not match); the read loop examines every line of the file", 3)
 	rd := p.Funcs["hermes.ReadGroundWaterTimeSeries"]
 	if rd == nil {
 		r.Ob("reader", "-", false, "ReadGroundWaterTimeSeries not found")
@@ -424,6 +424,60 @@ func c20SeriesId(p *Prog, r *Report) {
 		return
 	}
 	r.Ob("reader:filter", p.Pos(fpos), true, "series entries are stored only for lines accepted by "+filter.Name())
+	// every line of the file is examined: the rows of one id need not be contiguous (files ordered by date
+	// interleave the ids), so the read loop may end only at end of input
+	early := ""
+	nLoops := 0
+	ast.Inspect(rd.Decl.Body, func(n ast.Node) bool {
+		fs, ok := n.(*ast.ForStmt)
+		if !ok {
+			return true
+		}
+		isScan := false
+		if fs.Cond != nil {
+			ast.Inspect(fs.Cond, func(m ast.Node) bool {
+				if se, ok := m.(*ast.SelectorExpr); ok && se.Sel.Name == "Scan" {
+					isScan = true
+				}
+				return true
+			})
+		}
+		if !isScan {
+			return true
+		}
+		nLoops++
+		ast.Inspect(fs.Body, func(m ast.Node) bool {
+			switch t := m.(type) {
+			case *ast.BranchStmt:
+				if t.Tok == token.BREAK || t.Tok == token.GOTO {
+					early = p.Pos(t.Pos()) + " " + t.Tok.String()
+				}
+			case *ast.ReturnStmt:
+				// an error return is fine, a nil-error return ends the read early
+				if len(t.Results) > 0 {
+					if id, ok := t.Results[len(t.Results)-1].(*ast.Ident); ok && id.Name == "nil" {
+						early = p.Pos(t.Pos()) + " return nil"
+					}
+				}
+			case *ast.FuncLit:
+				return false
+			case *ast.ForStmt, *ast.RangeStmt, *ast.SwitchStmt, *ast.SelectStmt:
+				// a break inside a nested statement leaves that statement only
+				ast.Inspect(t, func(k ast.Node) bool {
+					if rs, ok := k.(*ast.ReturnStmt); ok && len(rs.Results) > 0 {
+						if id, ok := rs.Results[len(rs.Results)-1].(*ast.Ident); ok && id.Name == "nil" {
+							early = p.Pos(rs.Pos()) + " return nil"
+						}
+					}
+					return true
+				})
+				return false
+			}
+			return true
+		})
+		return true
+	})
+	r.Ob("reader:all-lines", p.Pos(rd.Decl.Pos()), nLoops == 1 && early == "", fmt.Sprintf("the read loop (found: %d) runs to the end of the file: no break or successful return inside it %s — the rows of one id need not form one block", nLoops, early))
 	ff := p.ByObj[filter]
 	if ff == nil {
 		r.Ob("filter:exact", p.Pos(fpos), false, "the id filter "+filter.FullName()+" is not an in-scope function: exactness not established")
